@@ -27,6 +27,20 @@ CHECKS = {
             COMMON_NOTE,
             'deterministic simulation: seeded schedule/segmentation search, '
             'stream-equality oracle at quiescence', 'DESIGN.md 4 C07'),
+    'C08': ('c08_flow_control',
+            'Seeded exploration with a reference window model replayed over '
+            'each endpoint\'s ordered packet tap: every DATA an endpoint '
+            'sends fits initial+adjusts received so far and the peer max '
+            'packet size; a hostile puppet peer overruns the advertised '
+            'window while the victim reads, has reading paused, or does not '
+            'read (stream): the victim must fail with a protocol error at the '
+            'first excess packet and deliver none of it; liveness: at '
+            'quiescence no writer or send buffer is pending.',
+            COMMON_NOTE + ' The hostile peer reuses asyncssh\'s transport '
+            '(raw send_packet) on the attacker side only.',
+            'deterministic simulation: schedule search + hostile-peer fault '
+            'injection, reference window model over tap history, quiescence '
+            'liveness', 'DESIGN.md 4 C08'),
 }
 
 NOT_YET = {}
